@@ -200,6 +200,8 @@ def other_cases():
         ("regexp_substr('hello world', 'o w')", "o w"), ("regexp_substr('abc', 'x')", None), ("regexp_substr('aaa', 'a', 2)", "a"),
         ("length(regexp_replace('x' || regexp_replace('aa', 'a', 'bb'), 'b', 'c'))", 5),
         ("trim('  a ')", "a"), ("trim(c0::varchar)", "7"), ("trim('xxaxx', 'x')", "a"), ("trim(trim('--ab--', '-'), 'a')", "b"), ("trim(c0, '7') || '.'", "."), ("sha2('a')", sha), ("sha2('a', 256)", sha), ("sha2_hex('a')", sha), ("sha2_binary('a')", bytes.fromhex(sha)),
+        ("sha2_hex(sha2_hex('a'))", hashlib.sha256(sha.encode()).hexdigest()), ("sha2_binary(sha2('a', 256))", hashlib.sha256(sha.encode()).digest()),
+        ("sha2(sha2_hex(sha2('a')))", hashlib.sha256(hashlib.sha256(sha.encode()).hexdigest().encode()).hexdigest()),
         ("to_timestamp('2020-01-02 03:04:05')", datetime.datetime(2020, 1, 2, 3, 4, 5)), ("to_timestamp_ntz('2020-01-02')", datetime.datetime(2020, 1, 2)),
         ("to_timestamp(1600000000)", datetime.datetime(2020, 9, 13, 12, 26, 40)), ("to_date('04/03/2020', 'DD/MM/YYYY')", datetime.date(2020, 3, 4)),
         ("c0::float", 7.0), ("c0 / 2", 3.5), ("c3::int", 12), ("'5'::int + 1", 6), ("c0::varchar || 'x'", "7x"), ("c3::float", 12.34),
@@ -468,6 +470,12 @@ def main():
     r2 = cur.execute("select random(7) from j1").fetchall()
     if r1 != r2 or len(r1) != 3 or not all(isinstance(x[0], int) and -2**63 <= x[0] < 2**63 for x in r1):
         report("random", f"random(7) is not repeatable: {r1} vs {r2}", {})
+    # every RANDOM of a statement is a 64-bit integer and the statement is repeatable - also several calls, seeded or not, and in subqueries
+    q_r = "select random(5) as a, random(5) as b, random() as c, (select random(5)) as d from j1"
+    r3, r4 = cur.execute(q_r).fetchall(), cur.execute(q_r).fetchall()
+    ck.cov["evaluations"] += 1
+    if r3 != r4 or len(r3) != 3 or not all(isinstance(v, int) and -2**63 <= v < 2**63 for row in r3 for v in row):
+        report("random-many", f"`{q_r}` gives {r3} then {r4}: every RANDOM must be a 64-bit integer and a seeded statement repeatable", {"sql": q_r})
     # ---- (4) unsupported forms are rejected, not answered wrongly
     for sql in ["select to_decimal('1.5', '99.9')", "select regexp_replace('aaa', 'a', 'b', 2)", "select sha2('a', 512)"]:
         ck.cov["evaluations"] += 1
